@@ -27,18 +27,21 @@ type Announcement struct {
 func UnmarshalAnnouncements(data []byte) (announcements []Announcement, err error) {
 	buff := bytes.NewBuffer(data)
 
-	if l, cErr := cboring.ReadArrayLength(buff); cErr != nil {
+	l, cErr := cboring.ReadArrayLength(buff)
+	if cErr != nil {
 		err = cErr
 		return
-	} else {
-		announcements = make([]Announcement, l)
 	}
 
-	for i := 0; i < len(announcements); i++ {
-		if cErr := cboring.Unmarshal(&announcements[i], buff); cErr != nil {
+	// The slice grows with the Announcements actually read; the announced length comes from the network and must
+	// not be allocated up front.
+	for i := uint64(0); i < l; i++ {
+		var announcement Announcement
+		if cErr := cboring.Unmarshal(&announcement, buff); cErr != nil {
 			err = fmt.Errorf("unmarshalling Announcement %d failed: %v", i, cErr)
 			return
 		}
+		announcements = append(announcements, announcement)
 	}
 
 	return
